@@ -35,7 +35,7 @@ RULE = ("histories: ladders of 2..8 real replicas (Ising: beta / J / Gamma / h /
         "tempering_step() at the C17 cadence with the same container words (final ladder, returned samples and energies, "
         "total_swaps, container-RNG consumption must agree); every tempering step of the manual history is a C10 case "
         "(after-state, decision log, counters; every second one with all swap probabilities and the order draw bisected) "
-        "and a rayon-step case; at the end of every history the ladder is snapshotted through (SerializeTemperingContainer, rng, rngs) -> JSON -> into_tempering_container_from_vec and the restored ladder must stay in lock-step with an in-memory twin (states, operator strings, cutoffs, non-moving fields, total_swaps after every round of time steps and tempering step; samples, energies and RNG consumption of timesteps_sample). heatbath-*: C02 harness modes pairs / sweeps / prob (bisected slot probabilities of the heat-bath update). gmixed: admission of generic replicas (all equal / scaled magnitudes with the same zero pattern / one term changed / sub-EPSILON control; also through into_qmc of Ising samplers with different couplings): a replica whose Hamiltonian differs from its predecessor must be refused by add_qmc_stepper and can_swap_graphs; admitted ladders are stepped and judged by the swap-probability oracle. grow: ladders grown between tempering steps (add_qmc_stepper / tempering_step / parallel_tempering_step interleaved, 0..8 replicas), every step a full C10 case. Non-trivial = history with at least one tempering step / step with a rejected or evaluated "
+        "and a rayon-step case; at the end of every history the ladder is snapshotted through (SerializeTemperingContainer, rng, rngs) -> JSON -> into_tempering_container_from_vec and the restored ladder must stay in lock-step with an in-memory twin (states, operator strings, cutoffs, non-moving fields, total_swaps after every round of time steps and tempering step; samples, energies and RNG consumption of timesteps_sample). heatbath-*: C02 harness modes pairs / sweeps / prob (bisected slot probabilities of the heat-bath update). gmixed: admission of generic replicas (all equal / scaled magnitudes with the same zero pattern / one term changed / sub-EPSILON control; also through into_qmc of Ising samplers with different couplings): a replica whose Hamiltonian differs from its predecessor must be refused by add_qmc_stepper and can_swap_graphs; admitted ladders are stepped and judged by the swap-probability oracle. parladder: mixed Ising ladders of 2..11 replicas (every replica its own |J| / Gamma / h and beta; two thirds with runs of repeated Hamiltonians so that beta-only pairs and different-Hamiltonian pairs alternate), equilibrated, identical clones driven by the serial driver and by the rayon driver inside explicit rayon::ThreadPoolBuilder pools of k = 1, 2, 3, 4 workers (thorough 1..8): 12 / 24 rounds of timesteps(1..2) / parallel_timesteps + tempering_step / parallel_tempering_step in lock-step with the same container words, then timesteps_sample / parallel_timesteps_sample on fresh clones. Oracle (real code only): per step the same number of accepted exchanges, the same container words, identical replicas at every position (state, n, cutoffs, operator string, non-moving fields), every position keeps its Hamiltonian (edges, transverse, longitudinal) and beta and holds a legal string, and EVERY exchange decision of both drivers equals (exact Metropolis ratio > the pair's own uniform), the ratio recomputed by the harness (c10.rs oracle_ratio) from the two operator strings under the two Hamiltonians and betas, the uniform decoded from the pair's own container word (knife-edge decisions skipped and counted); drivers: samples, energies, total_swaps, words, final ladder. The model side answers only the cadence counts for this kind (protocol kind hist: steps and samples per history) - the comparison is real code vs real code and vs the exact ratio. grow: ladders grown between tempering steps (add_qmc_stepper / tempering_step / parallel_tempering_step interleaved, 0..8 replicas), every step a full C10 case. Non-trivial = history with at least one tempering step / step with a rejected or evaluated "
         "decision; distinct = distinct full case text.")
 
 
@@ -51,6 +51,10 @@ def main(ck):
         ck.correspond("grow", "drv_c05", cases)
         cases = ck.harness("c05", ["gmixed"])
         ck.correspond("gmixed", "drv_c05", cases)
+        # mixed ladders (|J| / Gamma / h AND beta differ; runs of repeated Hamiltonians), 2..11 replicas: serial driver vs the
+        # rayon driver inside explicit pools of 1..4 (thorough 1..8) workers; every exchange decision of both drivers is judged
+        # against the exact Metropolis ratio recomputed from the two operator strings with the pair's OWN uniform
+        ck.correspond("parladder", "drv_c05", ck.harness("c05", ["parladder"]))
         # generic replicas with loop updates (XXZ ring with Ising anisotropy, cold betas): every loop update of long chains is
         # checked for closed world lines; loops with very many vertex visits are replayed exactly by the Lean loop model
         # (protocol and driver of C04); a beta ladder is checked for closed world lines / legal strings after every round
